@@ -490,6 +490,6 @@ def body_children(ctx):
     popblk = [c for c in walk_func(an) if isinstance(c, ast.Call) and src(c.func) == "self.ternary_stack.pop" and not c.args]
     ctx.check(len(newblk) == 1 and len(popblk) == 1, "ternary-blocks", db.where(an), "the per-block list of ternaries is not opened with the primary line and dropped with its end line", "one list of ternaries per open block")
     vc = db.func("codegen._GenerateRenderMethod.visitControlLine")
-    ch = [c_ for c_ in walk_func(vc) if isinstance(c_, ast.Call) and P.matches(c_, "%s.get_children()" % pn(vc, 1))]
+    ch = [c_ for f_ in db.with_helpers(vc) for c_ in walk_func(f_) if isinstance(c_, ast.Call) and P.matches(c_, "$n.get_children()") and isinstance(c_.func.value, ast.Name) and c_.func.value.id in {a_.arg for a_ in f_.args.args}]
     gc = db.func("parsetree.ControlLine.get_children")
     ctx.check(bool(ch) and P.has(gc, "return self.nodes"), "generator-reads", db.where(vc), "the empty-body test does not read the control line's own node list", "get_children() is the list the lexer filled")
